@@ -394,7 +394,8 @@ pub fn run(ctx: &mut Ctx) {
         for region in REGIONS {
             let reg = Reg::from_name(region.name()).unwrap();
             let f = gen::freq_set(reg)[4];
-            for front in [FrontKind::Async, FrontKind::Nb] {
+            // AsyncSeeded: the restored device is built by new_with_seed_and_session
+            for front in [FrontKind::Async, FrontKind::Nb, FrontKind::AsyncSeeded] {
                 for l in 0..=17usize {
                     for confirmed in [false, true] {
                         k += 1;
@@ -433,7 +434,7 @@ pub fn run(ctx: &mut Ctx) {
                 continue;
             }
             // a real document: run a short history with pending answers
-            let cfg = DevCfg { region: REGIONS[di % 9], join_bias: None, front: if di % 2 == 0 { FrontKind::Async } else { FrontKind::Nb }, board: (14, 0) };
+            let cfg = DevCfg { region: REGIONS[di % 9], join_bias: None, front: [FrontKind::Async, FrontKind::Nb, FrontKind::AsyncSeeded, FrontKind::Nb][di % 4], board: (14, 0) };
             let h = History { cfg: cfg.clone(), activation: Activation::Abp { fcnt_up: rng.next_u32(), fcnt_down: if di % 3 == 0 { None } else { Some(rng.next_u32()) } }, board: Board::default(), rng_script: vec![], rng_seed: rng.next_u64(),
                 steps: vec![Step::Send { port: 1, len: 1, confirmed: false, rx: RxPlan::rx1(Recipe::Auth { delta: 1, confirmed: true, port: None, payload_len: 0, fopts: vec![Cmd::RxTimingSetupReq(2), Cmd::DevStatusReq], frm_cmds: vec![], ack: false, fpending: false }) }] };
             let Ok((mut w, _)) = run_history(&h) else { continue };
